@@ -37,6 +37,7 @@ class FeatureIDEReader(TextToModel):
     TAG_DISJ = "disj"
     TAG_CONJ = "conj"
     TAG_EQ = "eq"
+    RULE_TAGS = (TAG_VAR, TAG_NOT, TAG_IMP, TAG_IMPN, TAG_DISJ, TAG_CONJ, TAG_EQ)
 
     # Feature attributes
     ATTRIB_NAME = "name"
@@ -79,7 +80,8 @@ class FeatureIDEReader(TextToModel):
         feature = None
 
         for child in root_tree:
-            if not child.tag == FeatureIDEReader.TAG_GRAPHICS:
+            if child.tag in (FeatureIDEReader.TAG_AND, FeatureIDEReader.TAG_OR,
+                             FeatureIDEReader.TAG_ALT, FeatureIDEReader.TAG_FEATURE):
                 is_abstract = (
                     FeatureIDEReader.ATTRIB_ABSTRACT in child.attrib
                     and child.attrib[FeatureIDEReader.ATTRIB_ABSTRACT] == "true"
@@ -135,10 +137,7 @@ class FeatureIDEReader(TextToModel):
         number = 1
         constraints = []
         for ctc in ctcs_root:
-            index = 0
-            if ctc[index].tag == FeatureIDEReader.TAG_GRAPHICS:
-                index += 1
-            rule = ctc[index]
+            rule = next(elem for elem in ctc if elem.tag in FeatureIDEReader.RULE_TAGS)
             ast = self._parse_rule(rule)
             if not ast:
                 raise FlamaException()
